@@ -86,6 +86,9 @@ func (fd *Client) setFailureCondition(condition FailureCondition) {
 
 // SetInterpreter assigns a native interpreter
 func (fd *Client) SetInterpreter(i interpreter.Interpreter) {
+	fd.mu.Lock()
+	defer fd.mu.Unlock()
+
 	native, ok := i.(*interpreter.Native)
 	if !ok {
 		panic("invalid interpreter type")
@@ -105,6 +108,9 @@ func (fd *Client) GetNativeInterpreter() *interpreter.Native {
 
 // CreateTable creates a new table
 func (fd *Client) CreateTable(input *dynamodb.CreateTableInput) (*dynamodb.CreateTableOutput, error) {
+	fd.mu.Lock()
+	defer fd.mu.Unlock()
+
 	if err := input.Validate(); err != nil {
 		return nil, err
 	}
@@ -147,6 +153,9 @@ func (fd *Client) CreateTableWithContext(ctx aws.Context, input *dynamodb.Create
 
 // DeleteTable deletes a table
 func (fd *Client) DeleteTable(input *dynamodb.DeleteTableInput) (*dynamodb.DeleteTableOutput, error) {
+	fd.mu.Lock()
+	defer fd.mu.Unlock()
+
 	if err := input.Validate(); err != nil {
 		return nil, err
 	}
@@ -174,6 +183,9 @@ func (fd *Client) DeleteTableWithContext(ctx aws.Context, input *dynamodb.Delete
 
 // UpdateTable update a table
 func (fd *Client) UpdateTable(input *dynamodb.UpdateTableInput) (*dynamodb.UpdateTableOutput, error) {
+	fd.mu.Lock()
+	defer fd.mu.Unlock()
+
 	if err := input.Validate(); err != nil {
 		return nil, err
 	}
@@ -209,6 +221,9 @@ func (fd *Client) UpdateTableWithContext(ctx aws.Context, input *dynamodb.Update
 
 // DescribeTable returns information about the table
 func (fd *Client) DescribeTable(input *dynamodb.DescribeTableInput) (*dynamodb.DescribeTableOutput, error) {
+	fd.mu.Lock()
+	defer fd.mu.Unlock()
+
 	tableName := aws.StringValue(input.TableName)
 
 	table, err := fd.getTable(tableName)
@@ -503,6 +518,9 @@ func (fd *Client) ScanWithContext(ctx aws.Context, input *dynamodb.ScanInput, op
 
 // SetItemCollectionMetrics set the value of the property itemCollectionMetrics
 func (fd *Client) setItemCollectionMetrics(itemCollectionMetrics map[string][]*dynamodb.ItemCollectionMetrics) {
+	fd.mu.Lock()
+	defer fd.mu.Unlock()
+
 	fd.itemCollectionMetrics = itemCollectionMetrics
 }
 
@@ -542,7 +560,7 @@ func (fd *Client) BatchWriteItem(input *dynamodb.BatchWriteItemInput) (*dynamodb
 
 	return &dynamodb.BatchWriteItemOutput{
 		UnprocessedItems:      unprocessed,
-		ItemCollectionMetrics: fd.itemCollectionMetrics,
+		ItemCollectionMetrics: fd.collectionMetrics(),
 	}, nil
 }
 
@@ -631,8 +649,8 @@ func handleBatchWriteRequestError(table string, req *dynamodb.WriteRequest, unpr
 
 // TransactWriteItems mock response for dynamodb
 func (fd *Client) TransactWriteItems(input *dynamodb.TransactWriteItemsInput) (*dynamodb.TransactWriteItemsOutput, error) {
-	if fd.forceFailureErr != nil {
-		return nil, fd.forceFailureErr
+	if err := fd.failure(); err != nil {
+		return nil, err
 	}
 
 	//TODO: Implement transact write
@@ -643,6 +661,22 @@ func (fd *Client) TransactWriteItems(input *dynamodb.TransactWriteItemsInput) (*
 // TransactWriteItemsWithContext mock response for dynamodb
 func (fd *Client) TransactWriteItemsWithContext(ctx aws.Context, input *dynamodb.TransactWriteItemsInput, opts ...request.Option) (*dynamodb.TransactWriteItemsOutput, error) {
 	return fd.TransactWriteItems(input)
+}
+
+// collectionMetrics returns the configured item collection metrics
+func (fd *Client) collectionMetrics() map[string][]*dynamodb.ItemCollectionMetrics {
+	fd.mu.Lock()
+	defer fd.mu.Unlock()
+
+	return fd.itemCollectionMetrics
+}
+
+// failure returns the emulated failure, if one is active
+func (fd *Client) failure() error {
+	fd.mu.Lock()
+	defer fd.mu.Unlock()
+
+	return fd.forceFailureErr
 }
 
 func (fd *Client) getTable(tableName string) (*core.Table, error) {
